@@ -412,6 +412,20 @@ def resolve(model: RefDir, op):
         items = _term_for(model, tn, r[1:6])
         if items is None:
             return None
+        if r[6] % 5 == 0:
+            # hour / second next to the rest: two different units of one
+            # type whose exponents cancel - the dimension stays, the scale
+            # takes their ratio
+            many = [x for x in model.types_with_ref()
+                    if len(model.types[x]['units']) >= 2]
+            xt = _pick(many, r[3])
+            if xt is not None:
+                us = model.types[xt]['units']
+                u1 = _pick(us, r[4])
+                u2 = _pick([u for u in us if u != u1], r[5])
+                e = [1, 1, 2][r[2] % 3]
+                pos = r[1] % (len(items) + 1)
+                items = items[:pos] + [[u1, e]] + items[pos:] + [[u2, -e]]
         k = None
         nums = []
         if r[7] % 2 == 0:
